@@ -14,6 +14,7 @@
 extern crate iceoryx2_bb_loggers;
 
 mod conn;
+mod zcc;
 
 use core::fmt::Debug;
 use core::marker::PhantomData;
@@ -593,6 +594,7 @@ fn main() {
             _ => panic!("unknown state"),
         },
         Some("conn") => conn::main(&args),
+        Some("zcc") => zcc::main(&args),
         Some("pingpong") => {
             let n = args.num("iterations", 10000);
             match args.get_or("backend", "semaphore").as_str() {
